@@ -198,13 +198,24 @@ var symIntrinsics map[string]externalFn
 func init() {
 	models = map[string]externalFn{
 		// sync
-		"(*sync.Mutex).Lock":      func(m *Machine, c *frame, fn *ssa.Function, a []value) value { m.mutexLock(a[0].(*value)); return nil },
-		"(*sync.Mutex).Unlock":    func(m *Machine, c *frame, fn *ssa.Function, a []value) value { m.mutexUnlock(a[0].(*value)); return nil },
-		"(*sync.Mutex).TryLock":   func(m *Machine, c *frame, fn *ssa.Function, a []value) value { return mkBool(m.mutexTryLock(a[0].(*value))) },
-		"(*sync.RWMutex).Lock":    func(m *Machine, c *frame, fn *ssa.Function, a []value) value { m.mutexLock(a[0].(*value)); return nil },
-		"(*sync.RWMutex).Unlock":  func(m *Machine, c *frame, fn *ssa.Function, a []value) value { m.mutexUnlock(a[0].(*value)); return nil },
-		"(*sync.RWMutex).RLock":   func(m *Machine, c *frame, fn *ssa.Function, a []value) value { m.mutexRLock(a[0].(*value)); return nil },
-		"(*sync.RWMutex).RUnlock": func(m *Machine, c *frame, fn *ssa.Function, a []value) value { m.mutexRUnlock(a[0].(*value)); return nil },
+		"(*sync.Mutex).Lock": func(m *Machine, c *frame, fn *ssa.Function, a []value) value { m.mutexLock(a[0].(*value)); return nil },
+		"(*sync.Mutex).Unlock": func(m *Machine, c *frame, fn *ssa.Function, a []value) value {
+			m.mutexUnlock(a[0].(*value))
+			return nil
+		},
+		"(*sync.Mutex).TryLock": func(m *Machine, c *frame, fn *ssa.Function, a []value) value {
+			return mkBool(m.mutexTryLock(a[0].(*value)))
+		},
+		"(*sync.RWMutex).Lock": func(m *Machine, c *frame, fn *ssa.Function, a []value) value { m.mutexLock(a[0].(*value)); return nil },
+		"(*sync.RWMutex).Unlock": func(m *Machine, c *frame, fn *ssa.Function, a []value) value {
+			m.mutexUnlock(a[0].(*value))
+			return nil
+		},
+		"(*sync.RWMutex).RLock": func(m *Machine, c *frame, fn *ssa.Function, a []value) value { m.mutexRLock(a[0].(*value)); return nil },
+		"(*sync.RWMutex).RUnlock": func(m *Machine, c *frame, fn *ssa.Function, a []value) value {
+			m.mutexRUnlock(a[0].(*value))
+			return nil
+		},
 		"(*sync.WaitGroup).Add": func(m *Machine, c *frame, fn *ssa.Function, a []value) value {
 			s := m.wgOf(a[0].(*value))
 			s.n += m.asTerm(a[1]).SVal()
@@ -524,12 +535,12 @@ func init() {
 		"(time.Time).Sub": func(m *Machine, c *frame, fn *ssa.Function, a []value) value {
 			return tBin("bvsub", timeExt(m, a[0]), timeExt(m, a[1]))
 		},
-		"(time.Duration).String":   func(m *Machine, c *frame, fn *ssa.Function, a []value) value { return mkStr("0s") },
-		"(time.Time).Second":       func(m *Machine, c *frame, fn *ssa.Function, a []value) value { return mkConst(64, 0) },
-		"(time.Time).Nanosecond":   func(m *Machine, c *frame, fn *ssa.Function, a []value) value { return mkConst(64, 0) },
-		"(time.Duration).Seconds":  func(m *Machine, c *frame, fn *ssa.Function, a []value) value { return mkConst(64, 0) },
-		"(time.Time).UnixNano":     func(m *Machine, c *frame, fn *ssa.Function, a []value) value { return mkConst(64, 0) },
-		"(time.Time).Unix":         func(m *Machine, c *frame, fn *ssa.Function, a []value) value { return mkConst(64, 0) },
+		"(time.Duration).String":      func(m *Machine, c *frame, fn *ssa.Function, a []value) value { return mkStr("0s") },
+		"(time.Time).Second":          func(m *Machine, c *frame, fn *ssa.Function, a []value) value { return mkConst(64, 0) },
+		"(time.Time).Nanosecond":      func(m *Machine, c *frame, fn *ssa.Function, a []value) value { return mkConst(64, 0) },
+		"(time.Duration).Seconds":     func(m *Machine, c *frame, fn *ssa.Function, a []value) value { return mkConst(64, 0) },
+		"(time.Time).UnixNano":        func(m *Machine, c *frame, fn *ssa.Function, a []value) value { return mkConst(64, 0) },
+		"(time.Time).Unix":            func(m *Machine, c *frame, fn *ssa.Function, a []value) value { return mkConst(64, 0) },
 		"(time.Duration).Nanoseconds": func(m *Machine, c *frame, fn *ssa.Function, a []value) value { return a[0] },
 		// math/rand: nondeterministic
 		"math/rand.Uint32": func(m *Machine, c *frame, fn *ssa.Function, a []value) value {
@@ -541,7 +552,7 @@ func init() {
 			return m.fresh("rand.Uint32", 32)
 		},
 		"math/rand.Uint64": func(m *Machine, c *frame, fn *ssa.Function, a []value) value { return m.fresh("rand.Uint64", 64) },
-		"math/rand.Int":    func(m *Machine, c *frame, fn *ssa.Function, a []value) value {
+		"math/rand.Int": func(m *Machine, c *frame, fn *ssa.Function, a []value) value {
 			// 63-bit random identifiers: assumed not to collide with earlier draws on the same path
 			t := m.fresh("rand.Int", 64)
 			cond := tCmp("bvsge", t, mkConst(64, 0))
@@ -566,9 +577,11 @@ func init() {
 		},
 		"github.com/lugu/qiloop/bus/util.ProcessID": func(m *Machine, c *frame, fn *ssa.Function, a []value) value { return mkConst(32, 4242) },
 		// os
-		"os.Getpid":   func(m *Machine, c *frame, fn *ssa.Function, a []value) value { return mkConst(64, 4242) },
-		"os.Getenv":   func(m *Machine, c *frame, fn *ssa.Function, a []value) value { return mkStr("") },
-		"os.Hostname": func(m *Machine, c *frame, fn *ssa.Function, a []value) value { return tuple{mkStr("verifhost"), ifaceV{}} },
+		"os.Getpid": func(m *Machine, c *frame, fn *ssa.Function, a []value) value { return mkConst(64, 4242) },
+		"os.Getenv": func(m *Machine, c *frame, fn *ssa.Function, a []value) value { return mkStr("") },
+		"os.Hostname": func(m *Machine, c *frame, fn *ssa.Function, a []value) value {
+			return tuple{mkStr("verifhost"), ifaceV{}}
+		},
 		// bytealg / internal helpers used by bytes & strings
 		"internal/bytealg.MakeNoZero": func(m *Machine, c *frame, fn *ssa.Function, a []value) value {
 			n := m.asTerm(a[0])
@@ -650,22 +663,53 @@ func init() {
 			return m.writeTo(c, a[0], s)
 		},
 		// sync/atomic on plain words
-		"sync/atomic.AddUint32":  atomicAdd,
-		"sync/atomic.AddInt32":   atomicAdd,
-		"sync/atomic.AddUint64":  atomicAdd,
-		"sync/atomic.AddInt64":   atomicAdd,
-		"sync/atomic.LoadUint32": atomicLoad,
-		"sync/atomic.LoadInt32":  atomicLoad,
-		"sync/atomic.LoadUint64": atomicLoad,
-		"sync/atomic.LoadInt64":  atomicLoad,
-		"sync/atomic.StoreUint32": atomicStore,
-		"sync/atomic.StoreInt32":  atomicStore,
-		"sync/atomic.StoreUint64": atomicStore,
-		"sync/atomic.StoreInt64":  atomicStore,
+		"sync/atomic.AddUint32":            atomicAdd,
+		"sync/atomic.AddInt32":             atomicAdd,
+		"sync/atomic.AddUint64":            atomicAdd,
+		"sync/atomic.AddInt64":             atomicAdd,
+		"sync/atomic.LoadUint32":           atomicLoad,
+		"sync/atomic.LoadInt32":            atomicLoad,
+		"sync/atomic.LoadUint64":           atomicLoad,
+		"sync/atomic.LoadInt64":            atomicLoad,
+		"sync/atomic.StoreUint32":          atomicStore,
+		"sync/atomic.StoreInt32":           atomicStore,
+		"sync/atomic.StoreUint64":          atomicStore,
+		"sync/atomic.StoreInt64":           atomicStore,
 		"sync/atomic.CompareAndSwapInt32":  atomicCAS,
 		"sync/atomic.CompareAndSwapUint32": atomicCAS,
 		"sync/atomic.CompareAndSwapInt64":  atomicCAS,
 		"sync/atomic.CompareAndSwapUint64": atomicCAS,
+		// sync/atomic.Value: one cell per Value, sequentially consistent, every access a scheduling point
+		"(*sync/atomic.Value).Load": func(m *Machine, c *frame, fn *ssa.Function, a []value) value {
+			m.preemptPoint()
+			p := m.ptr(a[0])
+			m.hbAcqRel(p)
+			if v, ok := m.atomicVals[p]; ok {
+				return v
+			}
+			return ifaceV{}
+		},
+		"(*sync/atomic.Value).Store": func(m *Machine, c *frame, fn *ssa.Function, a []value) value {
+			m.preemptPoint()
+			p := m.ptr(a[0])
+			m.hbAcqRel(p)
+			if iv, ok := a[1].(ifaceV); !ok || iv.t == nil {
+				m.targetPanic("sync/atomic: store of nil value into Value")
+			}
+			m.atomicVals[p] = a[1]
+			return nil
+		},
+		"(*sync/atomic.Value).Swap": func(m *Machine, c *frame, fn *ssa.Function, a []value) value {
+			m.preemptPoint()
+			p := m.ptr(a[0])
+			m.hbAcqRel(p)
+			old, ok := m.atomicVals[p]
+			if !ok {
+				old = ifaceV{}
+			}
+			m.atomicVals[p] = a[1]
+			return old
+		},
 	}
 	initSymIntrinsics()
 	// regexp on concrete arguments: native (used by signature.ValidName/CleanName)
@@ -1033,11 +1077,11 @@ var nativeBridge = map[string]interface{}{
 	"strings.LastIndex": strings.LastIndex, "strings.Count": strings.Count, "strings.SplitN": strings.SplitN,
 	"strings.IndexByte": strings.IndexByte, "strings.ContainsRune": strings.ContainsRune, "strings.IndexRune": strings.IndexRune,
 	"strings.ContainsAny": strings.ContainsAny,
-	"strconv.Itoa": strconv.Itoa, "strconv.Quote": strconv.Quote, "strconv.FormatInt": strconv.FormatInt,
+	"strconv.Itoa":        strconv.Itoa, "strconv.Quote": strconv.Quote, "strconv.FormatInt": strconv.FormatInt,
 	"strconv.FormatUint": strconv.FormatUint,
-	"unicode.IsUpper": unicode.IsUpper, "unicode.IsLower": unicode.IsLower, "unicode.IsLetter": unicode.IsLetter,
+	"unicode.IsUpper":    unicode.IsUpper, "unicode.IsLower": unicode.IsLower, "unicode.IsLetter": unicode.IsLetter,
 	"unicode.IsDigit": unicode.IsDigit, "unicode.ToUpper": unicode.ToUpper, "unicode.ToLower": unicode.ToLower,
-	"unicode.IsSpace": unicode.IsSpace,
+	"unicode.IsSpace":    unicode.IsSpace,
 	"path/filepath.Base": filepath.Base, "path/filepath.Join": filepath.Join, "path/filepath.Dir": filepath.Dir,
 }
 
